@@ -42,7 +42,10 @@ class _Instr:
         if fail_init:
             S.count_fault("constructor-raises")
             self.sim_init_failed = True
-            raise ValueError("constructor of %s fails as configured" % name)
+            import builtins
+
+            exc_cls = getattr(builtins, fail_init, ValueError) if isinstance(fail_init, str) else ValueError
+            raise exc_cls("constructor of %s fails as configured" % name)
         self.sim_init_done = True
 
     def __repr__(self):
